@@ -241,6 +241,8 @@ class CorrFunc(
             return NotImplemented
 
         self.is_compatible(other, require=True)
+        if self.to_dict().keys() != other.to_dict().keys():
+            raise ValueError("operands do not hold the same set of pair counts")
         kwargs = {
             attr: counts + getattr(other, attr)
             for attr, counts in self.to_dict().items()
